@@ -613,3 +613,76 @@ func cntName(v, own, other int) string {
 	}
 	return "unexpected"
 }
+
+// DTX(hasConflict): conflictBuilder.hasConflict(term) answers "is this terminal already an
+// unresolved conflict in this state" - true exactly when an entry exists and its resolution is
+// `conflict`. ruleAction skips precedence resolution for such terminals; an entry that was
+// *resolved* by precedence (doShift/doReduce/doError) must not count, or the next rule on the same
+// terminal is reported as a conflict although precedence decides it. Evaluated for every cell
+// of {absent, present} x {none, doShift, doReduce, doError, conflict}.
+func ruleHASCONFLICT(c *Ctx) {
+	const rule = "DTX(hasConflict)"
+	fn := c.SSAFunc("lalr", "(*conflictBuilder).hasConflict")
+	if fn == nil {
+		c.Lost(rule, "lalr.conflictBuilder.hasConflict", "function not found")
+		return
+	}
+	names := []string{"none", "doShift", "doReduce", "doError", "conflict"}
+	vals := map[string]int64{}
+	for _, n := range names {
+		v, ok := c.enumConst("lalr", n)
+		if !ok {
+			c.Lost(rule, "lalr."+n, "constant not found")
+			return
+		}
+		vals[n] = v
+	}
+	for _, present := range []bool{false, true} {
+		for _, rn := range names {
+			if !present && rn != "none" {
+				continue
+			}
+			key := fmt.Sprintf("lalr.conflictBuilder.hasConflict[present=%v,res=%s]", present, rn)
+			cfg := &aiConfig{
+				Lookup: func(path string, k AV, commaOk bool, t types.Type) (AV, bool) {
+					if commaOk {
+						return avTuple{E: []AV{avSymPtr{Path: "entry"}, avBool{present}}}, true
+					}
+					return nil, false
+				},
+				Load: func(path string, t types.Type) (AV, bool) {
+					if strings.HasSuffix(path, ".res") {
+						return avInt{vals[rn], vals[rn]}, true
+					}
+					return nil, false
+				},
+				Call: func(callee string, args []AV, site ssa.CallInstruction) (AV, bool, bool) { return nil, false, false },
+			}
+			outs := aiEval(fn, []AV{avSym{Name: "b"}, avSym{Name: "term"}}, cfg)
+			want := present && rn == "conflict"
+			var probs []string
+			if len(outs) == 0 {
+				probs = append(probs, "no path")
+			}
+			for _, o := range outs {
+				if o.Kind != "return" || len(o.Ret) != 1 {
+					probs = append(probs, "path: "+o.String())
+					continue
+				}
+				b, ok := o.Ret[0].(avBool)
+				if !ok {
+					probs = append(probs, "result not decided: "+avStr2(o.Ret[0]))
+				} else if b.V != want {
+					probs = append(probs, fmt.Sprintf("returns %v, want %v", b.V, want))
+				}
+			}
+			if len(probs) == 0 {
+				c.Ok(rule, key, fn.Pos(), "hasConflict = %v", want)
+			} else if strings.Contains(strings.Join(probs, ";"), "returns") {
+				c.Bad(rule, key, fn.Pos(), "hasConflict %s: a terminal whose earlier rule was decided by precedence is treated as an existing conflict, precedence resolution is skipped for the next rule and a conflict is reported that precedence resolves", strings.Join(probs, "; "))
+			} else {
+				c.Undec(rule, key, fn.Pos(), "%s", strings.Join(probs, "; "))
+			}
+		}
+	}
+}
